@@ -25,7 +25,7 @@ RULE = ('Hypothesis draws a small backend configuration (1-2 pols, 8/4 bit, sing
 ASSUMPTIONS = ['padding is header-relative as the property states', 'empty strings, quotes and keys longer than 8 characters are not valid cards and not generated',
                'float cards are compared after float()', 'listing order is injected by replacing glob in raw_utils inside the harness process']
 REQUIRED_CLASSES = ['hdrmod=0', 'hdrmod=1', 'hdrmod=31', 'directio=absent', 'directio=0', 'directio=1', 'template',
-                    'notemplate', 'files=1', 'files>1', 'last_partial', 'listing_unsorted', 'bogus_owned', 'array', 'single', 'user_pktstart', 'second_recording_same_backend', 'key_starts_with_END']
+                    'notemplate', 'files=1', 'files>1', 'last_partial', 'listing_unsorted', 'bogus_owned', 'array', 'single', 'user_pktstart', 'second_recording_same_backend', 'key_starts_with_END', 'blimpy_guppiraw']
 
 OWNED = ['NBITS', 'NPOL', 'OBSNCHAN', 'NANTS', 'BLOCSIZE', 'TBIN', 'CHAN_BW', 'OBSBW', 'OBSFREQ', 'SCANLEN']
 RESERVED = set(OWNED) | {'END', 'PKTIDX', 'PKTSTART', 'PKTSTOP', 'DIRECTIO', 'TELESCOP', 'OBSERVER', 'SRC_NAME'}
@@ -240,6 +240,25 @@ def run_case(case, ctx):
                 if rh[k].strip() != h0[k].strip():
                     obs.fail('read_header_value', f'{k}: {rh[k]!r} vs {h0[k]!r}')
                     break
+    # blimpy's GuppiRaw, the independent reader the property names (its DIRECTIO padding is file-relative, which
+    # coincides with header-relative padding when block sizes are multiples of 512)
+    # ... and its card parser stops at any key starting with END and splits cards at every '=': only headers it can read
+    blimpy_ok = not any(k.startswith('END') for k in user) and not any(t_ == 'str' and ('=' in str(v_)) for t_, v_ in user.values())
+    if blimpy_ok and (not dio or sz['block_size'] % 512 == 0):
+        from blimpy.guppi import GuppiRaw
+        obs.cls('blimpy_guppiraw')
+        for fn in files[:2] + files[-1:]:
+            try:
+                g = GuppiRaw(fn)
+                nb = int(g.find_n_data_blocks())
+                g.file_obj.close() if hasattr(g, 'file_obj') else None
+            except BaseException as exc:
+                obs.fail(f'blimpy_cannot_read:{tagd}', repr(exc)[:200])
+                break
+            want = len(per_file[files.index(fn)])
+            if nb != want:
+                obs.fail(f'blimpy_block_count:{tagd}', f'{nb} vs {want}')
+                break
     for k, fn in enumerate(files[:3] + files[-1:]):
         ok, n = core.call(obs, 'get_blocks_in_file', raw_utils.get_blocks_in_file, fn)
         want = len(per_file[files.index(fn)])
